@@ -93,6 +93,40 @@ verif_proof! { [C37]
     }
 }
 
+// the same obligation over longer lists (thorough tier)
+fn absolute_cutoff<const N: usize>() {
+    let s = any_finite::<N>();
+    let n: usize = kani::any();
+    kani::assume(n <= N);
+    let thr: f32 = kani::any();
+    let min_results: usize = kani::any();
+    let r = find_absolute_cutoff(&s[..n], thr, min_results);
+    let cut = r.0;
+    assert!(bounds_ok(cut, n, min_results), "[C37] cut-off outside [min(min_results, n), n]");
+    let mut i = 0;
+    while i < cut {
+        if i >= min_results {
+            assert!(!(s[i] < thr), "[C37] a result kept beyond min_results is below the threshold");
+        }
+        i += 1;
+    }
+    if cut < n {
+        assert!(s[cut] < thr, "[C37] the result just after the cut-off is not below the threshold");
+    }
+    kani::cover!(cut > 0 && cut < n, "cut inside the list");
+    leak(r);
+}
+verif_proof! { [C37]
+    #[kani::unwind(8)]
+    #[kani::stub(alloc::fmt::format, crate::verif_env::stub_format)]
+    fn c37_absolute_cutoff_6() { absolute_cutoff::<6>(); }
+}
+verif_proof! { [C37]
+    #[kani::unwind(10)]
+    #[kani::stub(alloc::fmt::format, crate::verif_env::stub_format)]
+    fn c37_absolute_cutoff_8() { absolute_cutoff::<8>(); }
+}
+
 // dispatcher, normalisation off: every strategy, cut-off bounds; for the
 // absolute/relative strategies also the threshold property.
 verif_proof! { [C37]
